@@ -536,3 +536,31 @@ def dual_stage_rule(ctx, rule, why):
     gm = [n for n in walk_no_nested(f.node) if isinstance(n, ast.If) and any(isinstance(x, ast.Raise) for x in ast.walk(n)) and
           ast.unparse(n.test).replace(' ', '') in (f'V.gain_min<{pr}.gain_min'.replace('V', ast.unparse(n.test).split('.')[0]),)]
     ctx.check(rule, f'{s_} gain_min check', len(gm) == 1, key(f, 'gain_min'), 'a dual-stage amplifier whose minimal gain is below its preamp minimal gain is no longer rejected')
+
+
+def ref_pair_rule(ctx, rule, why):
+    """FiberParams keeps ONE reference point: whatever the input gives (reference wavelength, reference frequency, neither), the
+    stored reference frequency and reference wavelength satisfy f_ref * lambda_ref = c (value graph, every combination of the
+    input tests); gamma, beta2, beta3 and the effective area are all scaled from that point"""
+    import itertools
+    from ..poly import gamma_conds, restrict
+    repo = ctx.repo
+    F = repo.cls('FiberParams', 'gnpy.core.parameters')
+    f = repo.method(F, '__init__')
+    ev = Evaluator(repo, f, types={'self': F}).run_function()
+    a, b = ev.exit_field('self._ref_frequency'), ev.exit_field('self._ref_wavelength')
+    if not (isinstance(a, Rat) and isinstance(b, Rat)):
+        raise CannotAnalyse('FiberParams: reference frequency / wavelength fields')
+    conds = sorted(gamma_conds(a) | gamma_conds(b))
+    if len(conds) > 4:
+        raise CannotAnalyse(f'FiberParams reference point depends on {len(conds)} tests')
+    n = 0
+    for combo in itertools.product((True, False), repeat=len(conds)):
+        env = dict(zip(conds, combo))
+        pa, pb = restrict(a, env), restrict(b, env)
+        n += 1
+        lab = ', '.join(f'{c_[:40]}={v}' for c_, v in env.items())
+        ctx.check(rule, f'{site(f)} [{lab}]', (pa * pb).eq(Rat.sym('c')), key(f, f'ref-pair|{lab}'),
+                  f'the stored reference frequency and wavelength are not the same point (f x lambda != c) when {lab}: {why}',
+                  f'f_ref = {vkey(pa)[:80]} ; lambda_ref = {vkey(pb)[:80]}')
+    return n
